@@ -212,6 +212,10 @@ class Body:
                         q = op_place(rv["a"])
                         if q is not None and is_local(q) and q["l"] in known:
                             v = known[q["l"]]
+                    if v is None and rv.get("k") == "unop" and rv.get("op") == "Not":
+                        q = op_place(rv["a"])
+                        if q is not None and is_local(q) and known.get(q["l"]) in (0, 1):
+                            v = 1 - known[q["l"]]      # `if !flag`
                     if v is not None:
                         known[s["lhs"]["l"]] = v
                     else:
@@ -690,7 +694,11 @@ def expr_str(e):
         return "closure(%s)" % short(e[1])
     if k == "repeat":
         return "[%s; %s]" % (expr_str(e[1]), e[2])
-    return "?%s" % (e[1:] if len(e) > 1 else "")
+    if k == "subslice":
+        return "%s[%s..%s]" % (expr_str(e[1]), e[2], e[3])
+    if k == "unknown":
+        return "?%s" % (e[1],) if len(e) > 1 else "?"
+    return "?%s" % (e[1:],) if len(e) > 1 else "?"
 
 
 def short(path):
